@@ -636,3 +636,89 @@ def run_writer_case(cls, fname, delim, enc):
     if buf.getvalue() != exp:
         return {'loop.step.the_row_plus_newline_in_the_callers_encoding': 'wrote %r, expected %r' % (buf.getvalue()[:80], exp[:80])}
     return {}
+
+
+# ---- read_snapshots / read_interactions (C09 / C10 readers' file layer) --------------------------------------------------------------
+#
+# read_X(path, comments, directed, delimiter, nodetype, timestamptype, encoding, keys)      (@open_file: `path` is the opened file - trusted)
+#   ensures  parse_X is called exactly once with: lines = the raw lines of the file, each decoded with the caller's own encoding, in order;
+#            comments, directed, delimiter, nodetype, timestamptype = the caller's own;
+#            keys = None when keys is false, else the result of read_ids(path.name, delimiter, timestamptype, comments, encoding[, interactions=True])
+#            called with the caller's own arguments;   the value returned is the result of parse_X
+
+class _ReaderCallSites(Contract):
+    def __init__(self, key):
+        self.key = key
+
+    def apply(self, interp, g, argv, kwv):
+        ctx = interp.ctx
+        c = ctx.rd
+        T_ = c.tags
+        env = interp.bind_args(interp.engine.fn(self.key).fdef, argv, kwv)
+        P = T_[0]
+        if self.key.endswith('read_ids'):
+            c.ids_calls += 1
+            nm = env.get('path')
+            ctx.oblige('%s.reader.read_ids_gets_the_name_of_the_file' % P, z3.BoolVal(nm is not None and nm.kind == 'opaque' and nm.tag == 'filename'), tags=T_, kind='call-site')
+            for p in ('delimiter', 'timestamptype', 'comments', 'encoding'):
+                got = env.get(p)
+                ctx.oblige('%s.reader.read_ids_gets_its_own.%s' % (P, p), z3.BoolVal(got is not None and got.kind == 'opaque' and got.z.eq(c.params[p].z)), tags=T_, kind='call-site')
+            if 'interactions' in [a.arg for a in interp.engine.fn(self.key).fdef.args.args]:
+                it = env.get('interactions')
+                want = c.fname == 'read_interactions'
+                ctx.oblige('%s.reader.read_ids_is_told_the_row_format' % P, z3.BoolVal(it is not None and it.kind == 'bool' and (z3.is_true(it.z) if want else z3.is_false(it.z))), tags=T_, kind='call-site')
+            c.ids_token = VOpaque(fresh('ids', Obj), 'ids')
+            return c.ids_token
+        c.parse_calls += 1
+        for p in ('comments', 'directed', 'delimiter', 'nodetype', 'timestamptype'):
+            got = env.get(p)
+            ctx.oblige('%s.reader.parser_gets_its_own.%s' % (P, p), z3.BoolVal(got is not None and got.kind == 'opaque' and got.z.eq(c.params[p].z)), tags=T_, kind='call-site')
+        ks = env.get('keys')
+        if c.keys_on:
+            ok = ks is not None and ks.kind == 'opaque' and c.ids_token is not None and ks.z.eq(c.ids_token.z)
+        else:
+            ok = ks is not None and ks.kind == 'none'
+        ctx.oblige('%s.reader.parser_gets_the_ranks_iff_keys' % P, z3.BoolVal(bool(ok)), tags=T_, kind='call-site')
+        ln = env.get('lines')
+        if ln is None or ln.kind != 'seq':
+            self.shape(ctx, '%s.reader.parser_gets_the_decoded_lines' % P, tags=T_, note='lines kind %s' % (ln.kind if ln is not None else None))
+        else:
+            k = c.k
+            e = ln.elem(k)
+            ctx.oblige('%s.reader.parser_gets_every_line_of_the_file' % P, ln.n == c.fw['n'], tags=T_, kind='call-site')
+            ctx.oblige('%s.reader.lines_are_decoded_with_the_callers_encoding' % P,
+                       z3.BoolVal(False) if not (e.kind == 'opaque' and e.tag == 'decoded') else e.z == c.fw['dec'](c.fw['raw'](k), c.params['encoding'].z), tags=T_, kind='call-site')
+        c.parse_token = VOpaque(fresh('parsed_graph', Obj), 'result')
+        return c.parse_token
+
+
+class FileReader(Contract):
+    def __init__(self, fname, keys, bound_n=None):
+        self.fname, self.keys_on = fname, keys == 'keys'
+        self.key = 'edgelist::%s' % fname
+        self.parse = 'edgelist::parse_%s' % fname.split('_', 1)[1]
+        self.props = ('C09', 'C18') if 'snapshots' in fname else ('C10', 'C18')
+
+    def uses(self, eng):
+        return [_ReaderCallSites(self.parse), _ReaderCallSites('edgelist::read_ids')]
+
+    def setup(self, ctx, variant):
+        fw = {'n': fresh('n_lines', Int), 'raw': fresh_fun('raw_line', Int, Obj), 'dec': fresh_fun('decode', Obj, Obj, Obj), 'name': fresh('file_name', Obj)}
+        ctx.assume(fw['n'] >= 0)
+        ctx.fileworld = fw
+        names = ('comments', 'directed', 'delimiter', 'nodetype', 'timestamptype', 'encoding')
+        params = {n_: VOpaque(fresh(n_, Obj), 'param') for n_ in names}
+        c = Call(fw=fw, params=params, keys_on=self.keys_on, fname=self.fname, tags=self.props, parse_calls=0, ids_calls=0, ids_token=None, parse_token=None,
+                 k=fresh('k', Int), argv=[VOpaque(fresh('file', Obj), 'file')] + [params[n_] for n_ in names] + [VBool(self.keys_on)], kwv={})
+        ctx.rd = c
+        return c
+
+    def finish(self, ctx, c, outcome):
+        T_ = c.tags
+        P = T_[0]
+        if outcome[0] == 'raise':
+            return self.forbid(ctx, '%s.reader.no_exception_of_its_own.%s' % (P, outcome[1]), tags=T_, note=outcome[2])
+        r = outcome[1]
+        ctx.oblige('%s.reader.exactly_one_parser_call' % P, z3.BoolVal(c.parse_calls == 1), tags=T_)
+        ctx.oblige('%s.reader.read_ids_iff_keys' % P, z3.BoolVal(c.ids_calls == (1 if c.keys_on else 0)), tags=T_)
+        ctx.oblige('%s.reader.returns_the_parsed_graph' % P, z3.BoolVal(c.parse_token is not None and r.kind == 'opaque' and r.z.eq(c.parse_token.z)), tags=T_)
